@@ -61,6 +61,10 @@ type Rule struct {
 // Step is a wall-clock advance (SleepMs > 0) or one event.
 type Step struct {
 	SleepMs int64 `json:"sleep_ms,omitempty"`
+	// Restart (on a sleep step): after the sleep every plugin instance is stopped and new ones are started
+	// under the same pipeline name (a pipeline stopped and started again inside one process); the
+	// pipeline's limiters are shared by name, so the counts of the running buckets go on
+	Restart bool `json:"restart,omitempty"`
 
 	Fields map[string]string `json:"fields,omitempty"` // string fields of the event; a name with a dot is rendered nested
 	// Time: "at" = the time field holds start+AtMs(+SubNs) rendered in the configured format;
@@ -291,7 +295,7 @@ func gen(t *rapid.T) Case {
 			if nowRel+d > maxVirtualMs {
 				d = int64(rapid.IntRange(1, int(min64(I, 1000))).Draw(t, "sleep_capped"))
 			}
-			c.Steps = append(c.Steps, Step{SleepMs: d})
+			c.Steps = append(c.Steps, Step{SleepMs: d, Restart: rapid.IntRange(0, 11).Draw(t, "restart") == 0})
 			nowRel += d
 			continue
 		}
@@ -597,29 +601,35 @@ func execute(c Case, steps []Step) *execResult {
 		if procs < 1 {
 			procs = 1
 		}
-		for pi := 0; pi < procs; pi++ {
-			config, err := pipeline.GetConfig(info, configJSON(c), nil)
-			if err != nil {
-				res.rejected = "GetConfig: " + err.Error()
-				return
-			}
-			anyPlugin, _ := info.Factory()
-			plugin := anyPlugin.(pipeline.ActionPlugin)
-			params := &pipeline.ActionPluginParams{
-				PluginDefaultParams: pipeline.PluginDefaultParams{PipelineName: name, PipelineSettings: settings, MetricCtl: ctl},
-				Logger:              fdkit.NewLogger().Sugar(),
-				Index:               0,
-			}
-			// registered before Start: a Fatal on a rule's distribution comes after the maintenance
-			// goroutine was spawned, so Stop must run even then (Stop of a never-started instance is recovered)
-			plugins = append(plugins, plugin)
-			if rec, _ := fdkit.CatchPanic(func() { plugin.Start(config, params) }); rec != nil {
-				if fp, ok := rec.(fdkit.FatalPanic); ok {
-					res.rejected = "Start: " + fp.Msg
-					return
+		startAll := func() bool {
+			for pi := 0; pi < procs; pi++ {
+				config, err := pipeline.GetConfig(info, configJSON(c), nil)
+				if err != nil {
+					res.rejected = "GetConfig: " + err.Error()
+					return false
 				}
-				panic(rec)
+				anyPlugin, _ := info.Factory()
+				plugin := anyPlugin.(pipeline.ActionPlugin)
+				params := &pipeline.ActionPluginParams{
+					PluginDefaultParams: pipeline.PluginDefaultParams{PipelineName: name, PipelineSettings: settings, MetricCtl: ctl},
+					Logger:              fdkit.NewLogger().Sugar(),
+					Index:               0,
+				}
+				// registered before Start: a Fatal on a rule's distribution comes after the maintenance
+				// goroutine was spawned, so Stop must run even then (Stop of a never-started instance is recovered)
+				plugins = append(plugins, plugin)
+				if rec, _ := fdkit.CatchPanic(func() { plugin.Start(config, params) }); rec != nil {
+					if fp, ok := rec.(fdkit.FatalPanic); ok {
+						res.rejected = "Start: " + fp.Msg
+						return false
+					}
+					panic(rec)
+				}
 			}
+			return true
+		}
+		if !startAll() {
+			return
 		}
 
 		elapsed := int64(0)
@@ -634,6 +644,15 @@ func execute(c Case, steps []Step) *execResult {
 				elapsed += s.SleepMs
 				res.decisions = append(res.decisions, -1)
 				res.sizes = append(res.sizes, 0)
+				if s.Restart {
+					for _, pl := range plugins {
+						pl.Stop()
+					}
+					plugins = plugins[:0]
+					if !startAll() {
+						panic("c16 harness: the configuration was accepted at the first start and refused at the restart: " + res.rejected)
+					}
+				}
 				continue
 			}
 			text := eventJSON(c, s, res.startMs)
@@ -1115,6 +1134,12 @@ func run(c Case) *vkit.Outcome {
 	}
 	if c.Procs > 1 {
 		o.Class("several-plugin-instances")
+	}
+	for _, st := range c.Steps {
+		if st.Restart {
+			o.Class("instances-restarted-under-the-same-pipeline-name")
+			break
+		}
 	}
 	// non-trivial: some key exceeded its limit in some bucket AND the clock crossed >= buckets_count intervals
 	if info.exceeded && crossed >= int64(c.BucketsCount) {
